@@ -1408,6 +1408,26 @@ def exhaustive_small(kind: str, tol: str):
             yield cfg, pre + [copy.deepcopy(o) for o in combo]
 
 
+def exhaustive_small_inplace(kind: str, tol: str):
+    """All histories of <= 4 executions / modifications over a reduced alphabet for a body that advances
+    its self-coupled input in place (`s += 1`) and returns that array as the output `s` (three caller
+    arrays holding s0, s0 + 1, s0; the array of a call that misses is overwritten by the body)."""
+    import itertools
+
+    cfg = {
+        "kind": kind, "tol": tol, "inputs": [["s", 1, None]], "outputs": [["y", 1], ["s", 1]], "din": ["s"], "dout": ["y"],
+        "sj": False, "A": {"y": [[10]], "s": [[1]]}, "b": {"y": [10], "s": ["1"]}, "q": {"y": [0], "s": [0]}, "sparse": [],
+        "hash": "real", "sym": False, "wr": {"s": ["1", "iadd"]}, "alias": {"s": ["s", "same"]},
+    }
+    alphabet = [["exec", {"s": 1}], ["exec", {"s": 2}], ["exec", {"s": 3}], ["mut", 1, ["1"]], ["mut", 3, ["2"]], ["clear"]]
+    if kind == "hdf":
+        alphabet.append(["reopen"])
+    pre = [["new", 1, ["1"]], ["new", 2, ["2"]], ["new", 3, ["1"]]]
+    for n in range(1, 5):
+        for combo in itertools.product(alphabet, repeat=n):
+            yield cfg, pre + [copy.deepcopy(o) for o in combo]
+
+
 def probe_returned_jacobian(res: Result) -> None:
     """Out-of-quantifier probe (information only): the caller modifies a *returned Jacobian* array."""
     cfg = {"kind": "simple", "tol": "0", "inputs": [["a", 1, None]], "outputs": [["y", 1]], "din": ["a"], "dout": ["y"],
@@ -1432,12 +1452,16 @@ def probe_returned_jacobian(res: Result) -> None:
 
 
 def run(ctx) -> Result:
+    global _POOL
     res = Result(PID)
     res.rule = (
         "random call histories of 1-20 operations (execute, linearize all/differentiated subset with and without "
         "execution, in-place modification of caller arrays, output arrays kept and passed back, HDF5 reopen, clear) on a "
         "polynomial discipline with 1-4 inputs (some defaulted, optional self-coupled variable), 1-3 outputs, optional "
-        "sparse Jacobian blocks, for cache in {none, SimpleCache, MemoryFullCache shared/not shared, HDF5Cache}, tolerance in "
+        "sparse Jacobian blocks, in ~30 % of the cases a body with side effects on its input arrays (in-place update "
+        "`arr += k` / `arr[:] = ..` / `np.add(.., out=arr)` of the self-coupled and/or a plain input, an input array or "
+        "a full view of it returned as an output; execute-only histories with repeated inputs, calls at the state an "
+        "earlier call reached, the same arrays passed again), for cache in {none, SimpleCache, MemoryFullCache shared/not shared, HDF5Cache}, tolerance in "
         "{0, 2^-10, 2^-3}, real or coarse (colliding) hash; a case is non-trivial when it has a cache and >= 2 calls; "
         "distinct by configuration line + protocol lines"
     )
@@ -1445,12 +1469,16 @@ def run(ctx) -> Result:
         "in-scope histories: the caller modifies only arrays it created or arrays it has passed in as inputs (returned "
         "arrays never passed back, and returned Jacobian arrays, are probed only); linearize(execute=False) only right "
         "after an execution with the same input values; every input is passed or has a default",
+        "bodies with side effects on their input arrays: they compute outputs (and Jacobian) from the call-time values, "
+        "do not write into default arrays of the discipline, are executed but not linearized in scope (the uncached twin "
+        "itself linearizes such a body at the values its run left in the arrays), and get one array per input name; "
+        "their twin is called with fresh arrays holding the input values of the cached discipline's calls",
         "the run-counter clause (at most one run per distinct input) is checked for full caches with exact matching (t = 0)",
         "within-tolerance witness: ||x - w|| <= t (1 + max(||x||, ||w||)) per input name (the documentation and the code "
         "disagree on the reference norm; the oracle accepts both)",
     ]
     rng = ctx.rng
-    global _POOL_SIZE
+    global _POOL_SIZE  # noqa: PLW0603
     _POOL_SIZE = 12 if ctx.thorough else 5
     corpus = load_corpus()
     check_cases(res, corpus, rng)
@@ -1482,10 +1510,20 @@ def run(ctx) -> Result:
                 for i in range(0, len(cases), 2400):
                     check_cases(res, cases[i : i + 2400], rng, parallel=True)
                 res.count(f"exhaustive-{kind}-{tol}", len(cases))
+            if time.time() > ctx.deadline:
+                break
+            cases = list(exhaustive_small_inplace(kind, "0"))
+            for i in range(0, len(cases), 2400):
+                check_cases(res, cases[i : i + 2400], rng, parallel=True)
+            res.count(f"exhaustive-in-place-body-{kind}-0", len(cases))
         res.notes.append("exhaustive part: all histories of <= 4 operations over {execute/linearize on 2 arrays, in-place "
-                         "modification, clear, reopen} for SimpleCache, MemoryFullCache (shared or not), HDF5Cache, t in {0, 1/8}")
+                         "modification, clear, reopen} for SimpleCache, MemoryFullCache (shared or not), HDF5Cache, t in {0, 1/8}; "
+                         "and over {execute on 3 arrays, in-place modification, clear, reopen} for a body that advances its "
+                         "self-coupled input in place and returns that array (t = 0)")
     if _POOL is not None:
         _POOL.close()
+        _POOL.join()
+        _POOL = None
     return res
 
 
